@@ -260,6 +260,8 @@ class Interp:
             return self.run_body(ctx, body, "%s/%s" % (path, taken), item)
         if k == "step":
             return self.do_step(ctx, node, path, item)
+        if k == "uthreads":
+            return self.do_uthreads(ctx, node, path)
         if k == "wait":
             return self.call(path, "wait", lambda: ctx.wait(duration(node["s"]), name=path), chain=self.next_chain(ctx))
         if k == "cb":
@@ -298,6 +300,41 @@ class Interp:
             serdes=SERDES[node.get("serdes")],
         )
         return self.call(path, "step", lambda: ctx.step(fn, name=path, config=cfg), chain=self.next_chain(ctx))
+
+    def do_uthreads(self, ctx, node, path):
+        """User threads sharing one context (the SDK documents its id generation as thread-safe): T threads leave a barrier and
+        each start N operations on ctx. Which thread gets which call index is up to the schedule, so these operations carry no
+        position chain; what must hold is that no two of them share an identifier and that their parent links are right."""
+        import threading
+
+        T, N = node["threads"], node["n"]
+        res, errs = {}, []
+        bar = threading.Barrier(T)
+
+        def inner(c, p):
+            return self.call(p + "/0", "step", lambda: c.step(lambda _sc: "in:" + p, name=p + "/0"))
+
+        def run(t):
+            try:
+                bar.wait()
+                for j in range(N):
+                    p = "%s/~u%d_%d" % (path, t, j)
+                    if node.get("op") == "child":
+                        res[(t, j)] = self.call(p, "child", lambda p=p: ctx.run_in_child_context(lambda c: inner(c, p), name=p))
+                    else:
+                        res[(t, j)] = self.call(p, "step", lambda p=p: ctx.step(lambda _sc: "v:" + p, name=p))
+            except BaseException as e:  # noqa: BLE001
+                errs.append(e)
+
+        ths = [threading.Thread(target=run, args=(t,), daemon=True) for t in range(T)]
+        for th in ths:
+            th.start()
+        for th in ths:
+            th.join()
+        self.chains.setdefault(id(ctx), ["", 0])[1] += T * N  # the context's call index moved on by T*N
+        if errs:
+            raise errs[0]
+        return [res[k] for k in sorted(res)]
 
     def do_callback(self, ctx, node, path, item):
         cfgd = node.get("cfg") or {}
@@ -447,6 +484,24 @@ class Interp:
         for i, b in enumerate(node["branches"]):
             f = self._branch_fn("%s/b%d" % (path, i), b, "%s.b%d" % (chain, i))
             fns.append(lambda c, f=f: f(c))
+        if node.get("same_fn"):
+            # the same callable (or equal bound methods) at several positions; it cannot know its index, and with max_concurrency=1
+            # and no suspension inside the k-th call is the k-th branch
+            import threading
+
+            lock, k, nb = threading.Lock(), [0], len(fns)
+            per_pos = list(fns)
+
+            class Shared:
+                def run(self_inner, c):  # noqa: N805
+                    with lock:
+                        i = k[0] % nb
+                        k[0] += 1
+                    return per_pos[i](c)
+
+            sh = Shared()
+            first = sh.run
+            fns = [first if node["same_fn"] == "identical" else sh.run for _ in range(nb)]
         cfg = None
         if cfgd or node.get("force_cfg"):
             kw = {"max_concurrency": cfgd.get("max_conc"), "serdes": SERDES[cfgd.get("serdes")],
